@@ -10,7 +10,7 @@ from typing import Dict, List, Optional, Set, Tuple
 from ..cfg import STMT, TEST
 from ..model import stmt_key, AnalysisError, FuncInfo, parent
 from ..report import rule, Collector
-from .common import RuleCtx, where_of, line_of, dedupe, expand_names
+from .common import untag, RuleCtx, where_of, line_of, dedupe, expand_names
 from .eff import _functions, module_methods
 
 U = ast.unparse
@@ -173,7 +173,131 @@ def r_layout(ctx: RuleCtx, col: Collector):
     dedupe(col)
 
 
+@rule("R-BLOCK-AXIS", floor=1)
+def r_block_axis(ctx: RuleCtx, col: Collector):
+    """write_to_vti accepts block-vectors in either orientation: which axis holds the per-entity data is *searched*
+    (`vecax`, the axis whose length is a multiple of the node / element count), so the i-th sub-vector must be selected
+    along the other axis - the selection depends on that searched axis.  A selection along a fixed axis (vec32[i] after a
+    reshape) silently interleaves the vectors of a column-wise block."""
+    m = ctx.model
+    dd = m.public_class("DomainDefinition")
+    f = m.resolve_method(dd, "write_to_vti")
+    if f is None:
+        raise AnalysisError("DomainDefinition.write_to_vti not found")
+    # the searched axis: assigned from a scan over <array>.shape with a divisibility test
+    axis_vars: Set[str] = set()
+    arrays: Set[str] = set()
+    for n in ast.walk(f.node):
+        if isinstance(n, ast.Assign) and isinstance(n.targets[0], ast.Name):
+            t = norm(n.value)
+            if "enumerate(" in t and ".shape" in t and "%" in t:
+                axis_vars.add(n.targets[0].id)
+                for x in ast.walk(n.value):
+                    if isinstance(x, ast.Attribute) and x.attr == "shape" and isinstance(x.value, ast.Name):
+                        arrays.add(x.value.id)
+    if not axis_vars or not arrays:
+        raise AnalysisError("write_to_vti: search for the vector axis of a block-vector not recognised")
+
+    import copy as _copy
+
+    class _NoRangeBound(ast.NodeTransformer):
+        # a counter does not "hold" the axis just because its range is bounded by a length that was read along it
+        def visit_Call(self, x):
+            self.generic_visit(x)
+            if norm(x.func) == "range":
+                x.args = [ast.Constant(value=0)]
+            return x
+    fnode_nb = _NoRangeBound().visit(_copy.deepcopy(f.node))
+
+    def dependents(seeds: Set[str], fnode=None) -> Set[str]:
+        # data dependence, where storing at an index that depends on a seed makes the container depend on it too
+        fnode = fnode if fnode is not None else f.node
+        dep = _dependent_names(fnode, set(seeds))
+        grew = True
+        while grew:
+            grew = False
+            for n in ast.walk(fnode):
+                if isinstance(n, ast.Assign) and isinstance(n.targets[0], ast.Subscript) and isinstance(n.targets[0].value, ast.Name) \
+                        and n.targets[0].value.id not in dep and (_names(n.targets[0].slice) & dep):
+                    dep.add(n.targets[0].value.id)
+                    grew = True
+            dep2 = _dependent_names(fnode, dep)
+            if dep2 != dep:
+                dep, grew = dep2, True
+        return dep
+    dep_axis = dependents(axis_vars, fnode_nb)
+    dep_arr = dependents(arrays) | arrays
+    # counters of the sub-vectors: targets of loops over range(<number of vectors>)
+    counters: Set[str] = set()
+    for n in ast.walk(f.node):
+        it, tg = None, None
+        if isinstance(n, (ast.For, ast.comprehension)):
+            it, tg = n.iter, n.target
+        if it is not None and isinstance(it, ast.Call) and norm(it.func) == "range" and isinstance(tg, ast.Name) and it.args and \
+                (_names(it.args[0]) & dep_arr):
+            counters.add(tg.id)
+    if not counters:
+        raise AnalysisError("write_to_vti: loop over the sub-vectors of a block-vector not recognised")
+    dep_cnt = dependents(counters) | counters
+    n_sel = 0
+    for n in ast.walk(f.node):
+        if not (isinstance(n, ast.Subscript) and isinstance(n.ctx, ast.Load)):
+            continue
+        root = n.value
+        while isinstance(root, (ast.Subscript, ast.Attribute, ast.Call)):
+            root = root.func if isinstance(root, ast.Call) else root.value
+        if not (isinstance(root, ast.Name) and root.id in dep_arr):
+            continue
+        if not (_names(n.slice) & dep_cnt):
+            continue
+        if isinstance(parent(n), ast.Subscript) and parent(n).value is n:
+            continue
+        if isinstance(n.value, ast.Attribute) and n.value.attr in ("shape", "strides"):
+            continue        # a length, not data
+        n_sel += 1
+        guarded = False
+        p_ = parent(n)
+        while p_ is not None and p_ is not f.node:
+            if isinstance(p_, (ast.IfExp, ast.If)) and (_names(p_.test) & (dep_axis | axis_vars)):
+                guarded = True
+            p_ = parent(p_)
+        construct = f"write_to_vti: sub-vector selection '{norm(n)}'"
+        if guarded or (_names(n.slice) & (dep_axis | axis_vars)):
+            col.ok(where_of(f), f.rel, line_of(n), construct, f"selected along the axis derived from {sorted(axis_vars)}")
+        else:
+            col.bad(where_of(f), f.rel, line_of(n), construct,
+                    f"the sub-vector is selected with '{norm(n.slice)}' along a fixed axis although the axis that holds the "
+                    f"per-entity data is searched at run time ({sorted(axis_vars)}): for a block-vector in the other orientation "
+                    f"the vectors are interleaved in the file")
+    if n_sel == 0:
+        raise AnalysisError("write_to_vti: selection of the sub-vectors not recognised")
+    dedupe(col)
+
+
 # ---------------------------------------------------------------------------------------------------- C09
+def _doubles_pad(comp: ast.ListComp, src: ast.AST, selfn: str) -> bool:
+    """the per-axis extent `<domain size> + 2 * <pad size of that axis>`: either the iterated list holds it for each axis,
+    or the element expression forms it from the axis' (size, pad) pair walked in lockstep"""
+    from .common import LoopElems
+    g = comp.generators[0]
+    le = LoopElems(g.target, src)
+    pad_vars = {nm for nm, seq in le.elems.items() if f"{selfn}.pad_sizes" in norm(seq)}
+
+    def mentions_pad(e):
+        return f"{selfn}.pad_sizes" in norm(e) or bool(_names(e) & pad_vars)
+
+    def doubled(e):
+        return any(isinstance(x, ast.BinOp) and isinstance(x.op, ast.Mult) and (
+            (norm(x.left) == "2" and mentions_pad(x.right)) or (norm(x.right) == "2" and mentions_pad(x.left))) for x in ast.walk(e))
+    if isinstance(src, (ast.List, ast.Tuple)) and len(src.elts) == 3:
+        return all(doubled(e) and f"{selfn}.pad_sizes[{k}]" in norm(e) for k, e in enumerate(src.elts))
+    if pad_vars and len(le.elems) >= 2:
+        # an addition of the lockstep partner (the domain size) and twice the pad size
+        return any(isinstance(x, ast.BinOp) and isinstance(x.op, ast.Add) and doubled(x) and
+                   (_names(x) & (set(le.elems) - pad_vars)) for x in ast.walk(comp.elt))
+    return False
+
+
 @rule("R-PAD-RANGE", floor=2)
 def r_pad_range(ctx: RuleCtx, col: Collector):
     """FilterConv: the index ranges of padded entries that are overridden with a constant are stored for use on the
@@ -207,14 +331,13 @@ def r_pad_range(ctx: RuleCtx, col: Collector):
         comp = comps[-1]
         src = expand_names(f.node, comp.generators[0].iter)
         t = norm(src)
-        construct = f"override ranges before '{stmt_key(st)}' (edge {'1' if 'edge1' in norm(blk.test) else '0'})"
+        construct = f"override ranges before '{untag(stmt_key(st))}' (edge {'1' if 'edge1' in norm(st) + norm(getattr(blk, 'test', st)) else '0'})"
         shapes = [x for x in ast.walk(src) if isinstance(x, ast.Attribute) and x.attr == "shape"]
         if shapes:
             col.bad(where_of(f), f.rel, line_of(comp), construct,
                     f"the ranges are taken from '{U(shapes[0])}', the shape of the array as padded so far: directions padded by "
                     f"later calls are missing, so the stored indices address the wrong entries of the final padded array")
-        elif isinstance(src, ast.List) and len(src.elts) == 3 and all(
-                f"{selfn}.pad_sizes[{k}]" in norm(e) and "2*" in norm(e) for k, e in enumerate(src.elts)):
+        elif _doubles_pad(comp, src, selfn):
             col.ok(where_of(f), f.rel, line_of(comp), construct, "ranges over the final padded sizes (domain + 2*pad per axis)")
         else:
             raise AnalysisError(f"{f.short}: cannot tell what sizes '{t}' are")
@@ -885,6 +1008,14 @@ def r_same_walk(ctx: RuleCtx, col: Collector):
                 lists.append(n.args[0].id)
     if len(lists) != 2:
         raise AnalysisError("ScalarToFile._response: header and row lists not recognised")
+    # both produced together as (name, value) pairs and split afterwards (T, D = zip(*pairs)): one walk by construction
+    for n in ast.walk(f.node):
+        if isinstance(n, ast.Assign) and isinstance(n.targets[0], ast.Tuple) and [norm(e) for e in n.targets[0].elts] in (lists, lists[::-1]) \
+                and isinstance(n.value, ast.Call) and norm(n.value.func) == "zip" and len(n.value.args) == 1 and \
+                isinstance(n.value.args[0], ast.Starred):
+            col.ok(where_of(f), f.rel, line_of(n), "ScalarToFile: names and values of a multi-valued signal come from one traversal",
+                   f"{lists[0]} and {lists[1]} are the two halves of one sequence of (name, value) pairs")
+            return
 
     def producers(name):
         out = []
